@@ -189,7 +189,7 @@ def run_once(bodies, prefix, recorded=None, timeout=30.0, bound=1 << 30):
     return run, results
 
 
-def explore(bodies, bound, on_execution, max_executions=None, first_choices=None):
+def explore(bodies, bound, on_execution, max_executions=None, first_choices=None, should_stop=None):
     """Enumerate all executions with <= bound preemptions (depth-first over choice prefixes).
 
     on_execution(run, results) is called for every complete execution.
@@ -208,6 +208,9 @@ def explore(bodies, bound, on_execution, max_executions=None, first_choices=None
         pmax = max(pmax, run.npoints)
         on_execution(run, results)
         if max_executions is not None and execs >= max_executions:
+            capped = True
+            break
+        if should_stop is not None and execs % 64 == 0 and should_stop():
             capped = True
             break
         for i in range(len(prefix), len(run.choices)):
